@@ -8,7 +8,7 @@ RULE = ('every ordered pair (g1, g2) of HRGs from a bounded family over shared n
         'e0,e1 (1-2 start rules out of 7 skeleton/labelling instances, one with an isolated internal node, 0-1 rule for X out of 4, one rule for Y, rules '
         'for a binary nonterminal W with externals in both orders) x nonterminal naming schemes (plain; the '
         '"X"+"Y,Z" / "X,Y"+"Z" clash; a terminal literally named like a pair; all natural pair names and their _1 variants taken; a shared terminal '
-        'name with equal / different type; a production listed twice; a nonterminal name carrying another type in g2, alone and together with a terminal conflict) x edge and node insertion order reversed in g2: the multiset of derivations (depth <= d) of '
+        'name with equal / different type; a production listed twice; a nonterminal name carrying another type in g2, alone and together with a terminal conflict; terminals of each grammar named like nonterminals of the other) x every other choice of the two start symbols (plain scheme; start symbols of different type have no paired derivation) x edge and node insertion order reversed in g2: the multiset of derivations (depth <= d) of '
         'conjoin_hrgs(g1,g2) (each rule instance identified by its terminals, node ids, external ids and nonterminal-edge ids) must equal the multiset of conjoinable pairs of derivations, computed by the harness '
         'from g1 and g2; paired names distinct and fresh; ValueError exactly for a genuine terminal conflict. '
         'Non-trivial = pair with >= 1 paired derivation.')
@@ -52,7 +52,7 @@ def family():
 
 
 SCHEMES = ('plain', 'clash', 'terminal-named-like-pair', 'shared-terminal-same-type', 'shared-terminal-other-type', 'pair-and-suffix-taken', 'duplicate-production',
-           'nonterminal-name-other-type', 'nonterminal-name-other-type+shared-terminal-other-type')
+           'nonterminal-name-other-type', 'nonterminal-name-other-type+shared-terminal-other-type', 'terminal-named-like-other-nonterminal')
 
 
 def gen_cases(tier, seed):
@@ -76,6 +76,8 @@ def names_for(scheme, side):
     if scheme.startswith('nonterminal-name-other-type') and side == 2:
         # g2 calls its binary nonterminal 'Y' and its unary one 'W': the names of g1, with other types (legal: pairs are renamed)
         return {'S': 'S', 'X': 'X', 'Y': 'W', 'W': 'Y'}
+    if scheme == 'terminal-named-like-other-nonterminal' and side == 2:
+        return {'S': 'S', 'X': 'X2', 'Y': 'Y2', 'W': 'W2'}
     return {'S': 'S', 'X': 'X', 'Y': 'Y', 'W': 'W'}
 
 
@@ -116,6 +118,9 @@ def mk(side, spec, scheme, reverse, wrules, only=None):
             tl = 'shared'
             if scheme.endswith('shared-terminal-other-type') and side == 2:
                 ttype = [T, T]
+        if scheme == 'terminal-named-like-other-nonterminal' and lhs in ('S', 'X'):
+            # a terminal of one grammar carries the name of a nonterminal of the other (no conflict: only terminals can conflict)
+            tl = {(1, 'S'): 'X2', (1, 'X'): 'Y2', (2, 'S'): 'X', (2, 'X'): 'Y'}[side, lhs]
         tlabel = EdgeLabel(tl, ttype, is_terminal=True)
         tedge = Edge(tlabel, [V[nodes[0]]] * len(ttype))
         if reverse:
@@ -262,4 +267,25 @@ def judge(a, b, scheme, reverse, w1, w2, depth, r):
         if tuple(rule.lhs.type) != tuple(rule.rhs.type):
             r.bad('ill-typed-rule', 'conjunction.conjoin_rules', scheme, 'lhs type %r rhs type %r' % (rule.lhs.type, rule.rhs.type), case, key)
             return
+    # the same two rule sets under every other choice of start symbols (also of different arity): HRGs whose start
+    # symbol is X, Y or W are HRGs too, and a pair of start symbols of different type has no paired derivation at all
+    if scheme == 'plain' and not reverse:
+        for n1 in sorted(g1.nonterminals(), key=lambda l: l.name):
+            for n2 in sorted(g2.nonterminals(), key=lambda l: l.name):
+                if n1 == g1.start and n2 == g2.start:
+                    continue
+                h1, h2 = mk(1, a, scheme, False, w1), mk(2, b, scheme, reverse, w2)
+                try:
+                    h1.start = h1.get_edge_label(n1.name)
+                    h2.start = h2.get_edge_label(n2.name)
+                    c2 = conjoin_hrgs(h1, h2)
+                    dc2 = derivs(c2, c2.start, depth, {})
+                except Exception as e:
+                    r.exc(e, scheme + '/start=%s,%s' % (n1.name, n2.name), case, key)
+                    return
+                dp2 = paired(h1, h2, h1.start, h2.start, depth, {})
+                if dc2 != dp2:
+                    r.bad('derivations-differ', 'conjunction.conjoin_hrgs', scheme + '/other-start', 'g1=%r g2=%r start symbols %s (type %r) and %s (type %r): %d conjoined vs %d paired derivations; extra=%r missing=%r' % (
+                        a, b, n1.name, tuple(l.name for l in n1.type), n2.name, tuple(l.name for l in n2.type), sum(dc2.values()), sum(dp2.values()), list((dc2 - dp2).items())[:2], list((dp2 - dc2).items())[:2]), case, key)
+                    return
     r.ok(key, outcome=('derivs', min(sum(dc.values()), 50)), nontrivial=sum(dc.values()) > 0)
